@@ -1,21 +1,24 @@
 ----------------------------- MODULE MC_JsonAbnf -----------------------------
 (* The PDA of JsonGrammar.tla (RFC mode, cap never reached) accepts exactly  *)
 (* the strings derivable from the RFC 8259 ABNF as transcribed in JsonAbnf,  *)
-(* on every string of length <= MaxLen over Alphabet; and a stuck PDA means  *)
-(* no extension over Alphabet of length <= MaxLen is a JSON text (checked    *)
-(* through the successors: they stay stuck and are not JSON texts).          *)
+(* on every string of length <= Lk over alphabet Ak (k = 1..3); a stuck PDA  *)
+(* is never a JSON text (and stays stuck in all successors).                 *)
 EXTENDS JsonGrammar, TLC
 
-CONSTANTS Alphabet, MaxLen
+CONSTANTS A1, L1, A2, L2, A3, L3     \* three alphabets with their length bounds (one TLC run)
+
+Alphabet(k) == IF k = 1 THEN A1 ELSE IF k = 2 THEN A2 ELSE A3
+MaxLen(k) == IF k = 1 THEN L1 ELSE IF k = 2 THEN L2 ELSE L3
 
 A == INSTANCE JsonAbnf
 
-VARIABLES s, c
-vars == <<s, c>>
+VARIABLES s, c, al
+vars == <<s, c, al>>
 
-Init == s = <<>> /\ c = CfgInit
-Next == /\ Len(s) < MaxLen
-        /\ \E b \in Alphabet : s' = Append(s, b) /\ c' = StepRfc(c, b)
+Init == s = <<>> /\ c = CfgInit /\ al \in {1, 2, 3}
+Next == /\ Len(s) < MaxLen(al)
+        /\ \E b \in Alphabet(al) : s' = Append(s, b) /\ c' = StepRfc(c, b)
+        /\ al' = al
 Spec == Init /\ [][Next]_vars
 
 Inv == /\ Accepting(c) <=> A!IsJsonText(s)
